@@ -243,6 +243,12 @@ def get_input_data(world: World, sim: SimRunner) -> InputData:
     # Merge the persistent inputs into the input data, adding keys as
     # necessary. mosaik controls three levels deep, all further levels
     # therefore should not be merged.
+    # (Merge a copy, so that pushed non-persistent inputs that are added
+    # below do not end up in the memory of the persistent inputs.)
+    persistent_inputs = {
+        eid: {attr: dict(vals) for attr, vals in attrs.items()}
+        for eid, attrs in sim.persistent_inputs.items()
+    }
     merge_all(
         lambda attrs_new, attrs_old: merge_all(
             lambda data_new, data_old: merge_all(
@@ -252,7 +258,7 @@ def get_input_data(world: World, sim: SimRunner) -> InputData:
             attrs_old,
         ),
         input_data,
-        sim.persistent_inputs,
+        persistent_inputs,
     )
     # Merge in pushed inputs from the timed input buffer
     input_data = sim.timed_input_buffer.get_input(input_data, sim.current_step.time)
